@@ -324,3 +324,5 @@ FINDINGS = []
 SUBS = [
     Sub("history", lambda tier: histories(tier), check_history, quick=1200, thorough=8000),
 ]
+
+RULE += ' Also: accumulation after the invalidating operation (fill, fill_n, + in both operand orders, +=, sum): everything stays NaN; emptied-copy stages restart the reference.'
